@@ -10,19 +10,19 @@ CHECKS = {
          "Runtime monitoring: the real sketch is driven with seeded hostile multisets (bin-edge values +-k ulps, binade boundaries, range ends, sub-minimum magnitudes) over all mapping kinds, alpha in [1e-6,0.99], offsets and the three non-collapsing stores; every answer at every k/(n-1), its float neighbours, 0, 1 and random q is compared with the order statistics at floor/ceil of the exact rank. Held on the executions produced, not a proof.",
          "Trusted: the harness's own sort and big.Rat rank; calibrated float slack 64*u(v) (DESIGN §3.6); |v|==MinIndexableValue accepted either way.", "§4 C01"),
  "C02": ("exploration", "differential monitor (single sketch vs merge tree) with argument snapshots",
-         "Runtime monitoring: one input is fed to a single sketch and to 1-8 parts of independently chosen store kinds, merged along random trees by MergeWith or DecodeAndMergeWith; the full observation (bins, zero weight, count, extremes, quantile grid) must be bitwise identical; the argument's observation is compared before/after each merge; empty merges must be no-ops.",
+         "Runtime monitoring: one input is fed to a single sketch and to 1-8 parts of independently chosen store kinds (plain and exact-summary variants), merged along random trees by MergeWith or DecodeAndMergeWith; the full observation (bins, zero weight, count, extremes, quantile grid) must be bitwise identical; the argument's observation is compared before/after each merge; empty merges must be no-ops; every earlier argument is re-observed after its receiver was used further (aliasing).",
          "Trusted: unit weights make all sums exact; observation = public API only.", "§4 C02"),
  "C03": ("exploration", "probe monitor on Index/Value/LowerBound with calibrated float slack",
          "Runtime monitoring: every mapping kind x alpha x offset regime (built from alpha and from (gamma, offset)) is probed at ~1500 values per mapping placed on computed bin edges +-k ulps, binade boundaries and both range ends, in increasing order; accuracy, monotonicity, containment, the int32 bound and the reported accuracy are asserted on each probe.",
          "Trusted: slack 64*u(v) (10x the worst excess observed on the unchanged tree); LowerBound(i+1) only required while bin i+1 is indexable.", "§4 C03"),
  "C04": ("exploration", "online reference-model monitor (exact index->weight map) after every store operation, layout events via hook",
-         "Runtime monitoring: seeded operation histories on dense/sparse/paginated stores (adds, weighted adds, bins, merges from all 5 kinds, copies, clears, reweights, encode/decode, proto) with every observer (TotalCount, IsEmpty, Min/MaxIndex, ForEach, Bins, KeyAtRank on exact cumulative boundaries) compared with the mathematical map after every event; the hook shows which internal paths (array shift/grow, page allocation, compaction, capacity reuse) were reached.",
+         "Runtime monitoring: seeded operation histories on dense/sparse/paginated stores (adds, weighted adds, bins, merges from all 5 kinds, copies, clears, reweights, encode/decode into fresh and into existing stores, proto through the helper and the paginated store's own method; indexes up to both ends of int32) with every observer (TotalCount, IsEmpty, Min/MaxIndex, ForEach incl. early stop, Bins, KeyAtRank on exact cumulative boundaries) compared with the mathematical map after every event; the hook shows which internal paths (array shift/grow, page allocation, compaction, capacity reuse) were reached.",
          "Trusted: dyadic weights under an exactness budget (float arithmetic exact); collapsing arguments follow C05's model.", "§4 C04"),
  "C05": ("exploration", "online reference-model monitor (fold model) + bound assertions via layout hook; sketch-level accuracy monitor",
          "Runtime monitoring: the C04 histories on collapsing stores for N in {1..2048} incl. merges of wider stores into empty/cleared receivers; content compared with the folded exact map after every event; #bins<=N, span<=N and (hook) allocated length<=N asserted; collapsing sketches checked against the alpha bound on retained bins and the edge-bin rule otherwise.",
          "Trusted: fold model (edge = extreme -/+ (N-1)); dyadic weights.", "§4 C05"),
  "C06": ("exploration", "round-trip / merge-equivalence monitor with bitwise observation equality and fold model",
-         "Runtime monitoring: sketches reached by seeded histories (both variants, 5 store kinds) are encoded after arbitrary buffer prefixes with the mapping embedded or omitted and decoded into all 5 target kinds; bins are compared through the (fold) model, full observations bitwise; DecodeAndMergeWith(Encode(Y)) is compared with MergeWith(Y) on twins, concatenations of 2-4 encodings with sequential merges; arbitrary float weights are checked per bin within ulp(v+1).",
+         "Runtime monitoring: sketches reached by seeded histories (both variants, 5 store kinds) are encoded after arbitrary buffer prefixes with the mapping embedded or omitted and decoded into all 5 target kinds; bins are compared through the (fold) model, full observations bitwise; DecodeAndMergeWith(Encode(Y)) is compared with MergeWith(Y) on twins, concatenations of 2-4 encodings with sequential merges; arbitrary float weights are checked per bin within ulp(v+1); sub-cases: very fine mappings with bins more than 2^31 apart, weights multiple of 2^-52 (9-byte varfloats), exact-summary encodings read by the plain decoder.",
          "Trusted: dyadic weights survive the (v+1)-1 transform exactly; models of C04/C05.", "§4 C06"),
  "C07": ("exploration", "independent reference codec (written from the format documentation) in both directions",
          "Runtime monitoring: (1) every encoding produced by the implementation is parsed by an independent codec written only from flag.go/encoding.go documentation and its content compared with the model (mapping parameters bitwise, zero weight, bins, count/sum/min/max); (2) streams generated from the documented grammar (any block order, 3 layouts, N=0, negative/zero/large strides, repeated indexes and blocks, statistics blocks) are decoded by all decoders into every store kind and compared with the content the documentation assigns; plain decoder on exact-summary encodings.",
@@ -31,7 +31,7 @@ CHECKS = {
          "Fault enumeration over each generated valid encoding: EVERY truncation point, undefined flags substituted at every block boundary (16 sampled per boundary in quick, all ~240 in thorough), mismatching and missing mappings, into rotating store kinds and both decoders, fresh and non-empty receivers; block boundaries come from the independent parser; success is only accepted at block boundaries with exactly the content of the complete blocks. Exhaustive per encoding over cut points, sampled over encodings.",
          "Trusted: independent parser for block boundaries; a failed decode need not be atomic; panics are caught in-process, process-fatal errors by worker isolation.", "§4 C08"),
  "C09": ("exploration", "protobuf round-trip monitor (bitwise bins) and stream-vs-message equality (proto.Equal)",
-         "Runtime monitoring: sketches with arbitrary non-negative float64 weights, negatives, cleared-then-refilled stores are converted ToProto -> Marshal -> Unmarshal -> FromProtoWithStoreProvider into all 5 store kinds (bins and zero weight compared bit for bit), the streaming writer's bytes are unmarshalled and compared with ToProto() by proto.Equal, and hand-built messages mixing sparse and contiguous bins are checked to add up.",
+         "Runtime monitoring: sketches with arbitrary non-negative float64 weights, negatives, cleared-then-refilled stores are converted ToProto -> Marshal -> Unmarshal -> FromProtoWithStoreProvider into all 5 store kinds (bins and zero weight compared bit for bit), the streaming writer's bytes are unmarshalled and compared with ToProto() by proto.Equal, and hand-built messages mixing sparse and contiguous bins (also with an absent store) are checked to add up; rebuilding goes through FromProtoWithStoreProvider, FromProto and the paginated store's own MergeWithProto.",
          "Trusted: google.golang.org/protobuf v1.32.0 as the reference (un)marshaller.", "§4 C09"),
  "C10": ("exploration", "reference-model monitor (exact multiset of (value, weight), 2400-bit sum) after every event",
          "Runtime monitoring: seeded histories over every mutating operation of the exact-summary sketch (incl. weight-0 adds, merges, decodes, copies, clears, reweights, ChangeMapping, round trips) and adversarial summation sequences; after every event count, emptiness, min, max are compared exactly, the sum against a calibrated compensated-summation bound, and every quantile against clamp(plain answer, min, max).",
